@@ -45,6 +45,10 @@ def gen(rng, tier, index):
     if rng.random() < 0.6:
         stuffing, abort = rng.choice(hdlc_gen.CONFIGS)
         data, kind = hdlc_gen.noise(rng, stuffing)
+        if rng.random() < 0.25:  # several disturbances in a row
+            more = [hdlc_gen.noise(rng, stuffing) for _ in range(rng.choice([1, 1, 2]))]
+            data = data + b"".join(d for d, _ in more)
+            kind = "+".join([kind] + [k for _, k in more])
         n = rng.choice([2, 2, 3, 5, 8, 40]) if stuffing else rng.choice([8, 40, 80, 120])
         items = []
         for seq in range(n):
@@ -73,6 +77,10 @@ def gen(rng, tier, index):
         sc = {"reader": "hdlc", "cfg": [stuffing, abort], "noise": data.hex(), "noise_kind": kind, "clean": items}
     else:
         data, kind = p1_gen.noise(rng)
+        if rng.random() < 0.25:  # several disturbances in a row
+            more = [p1_gen.noise(rng) for _ in range(rng.choice([1, 1, 2]))]
+            data = data + b"".join(d for d, _ in more)
+            kind = "+".join([kind] + [k for _, k in more])
         n = rng.choice([2, 2, 3, 5, 12, 40])
         specs = [p1_gen.readout_spec(rng, seq, rng.choice(["small", "small", "typical"]) if n > 5 else "any") for seq in range(n)]
         specs = [s if p1_gen.well_formed(s) else p1_gen.readout_spec(rng, i, "small") for i, s in enumerate(specs)]
@@ -203,10 +211,13 @@ def execute(sc):
                 probes["hdlc_in_frame_at_junction"] = 1
         elif not j[0]:
             probes["p1_collecting_at_junction"] = 1
-        states.add((kind, sc["noise_kind"], j))
+        states.add((kind, sc["noise_kind"].split("+")[0], j))
     if kind == "p1" and noise_len > 8191:
         probes["p1_noise_over_8k"] = 1
-    probes[f"noise_{sc['noise_kind']}"] = 1
+    for nk in sc["noise_kind"].split("+"):
+        probes[f"noise_{nk}"] = 1
+    if "+" in sc["noise_kind"]:
+        probes["several_disturbances_in_a_row"] = 1
     probes[f"reader_{tag.replace(' ', '_')}"] = 1
     junction_cut = sc["cuts"]["m"] != "whole"
     return {
@@ -215,7 +226,7 @@ def execute(sc):
         "digest": prng.digest([[b.hex()[:64] for b in all_bytes], len(got_valid), [v["sig"] for v in viol], void]),
         "nontrivial": noise_len > 0 and bool(required) and (junction_cut or (j is not None and (not j[0] or bool(j[1])))),
         "key": prng.digest([kind, cfg, prng.digest(wire.hex()), sc["cuts"]]),
-        "faults": {f"noise_{sc['noise_kind']}": 1, "fragmentation_cuts": fragment.n_cuts(len(wire), sc["cuts"])},
+        "faults": {**{f"noise_{nk}": 1 for nk in sc["noise_kind"].split("+")}, "fragmentation_cuts": fragment.n_cuts(len(wire), sc["cuts"])},
         "probes": probes,
         "states": states,
         "sim_s": len(wire) / reader_rig.LINE_RATE,
